@@ -198,7 +198,9 @@ static void on_alarm(int sig)
 	_exit(97);
 }
 #define ENTER() do { alarm(10); g_in_lib = 1; } while (0)
-#define LEAVE() do { g_in_lib = 0; alarm(0); } while (0)
+/* leaving the library re-arms the per-operation watchdog of vharness.h (the rest of the operation,
+ * e.g. joining a helper thread, must not hang without limit either) */
+#define LEAVE() do { g_in_lib = 0; alarm(VH_OP_TIMEOUT); } while (0)
 
 static void line(const char *ret, const char *st)
 {
